@@ -43,6 +43,8 @@ def r_ident_table(model, rep):
     f = model.own_method("images.Image", "serialize")
     cx, emits = facts.writer_emits(model, f)
     W = dict((e.path[-1][1], e) for e in emits if e.kind == "store" and e.path and e.path[-1][0] == "const")
+    if len(W) < 8:
+        raise AnalysisError("vacuity guard: Image.serialize writes %d recognisable keys (about 15 expected): extraction not understood" % len(W))
     for a in attrs:
         ok = a in init and a in W and cx.self_attr(W[a].value) == a
         rep.ob("R-IDENT-TABLE", "Image.%s" % a, ok, site=cx.site(f.node),
